@@ -1,4 +1,5 @@
 pub mod c07;
+pub mod c08;
 pub mod c19;
 pub mod common;
 pub mod c20;
@@ -10,6 +11,7 @@ use serde_json::Value;
 pub fn run(prop: &str, tier: Tier, replay: Option<Value>) -> ! {
     match prop {
         "C07" => c07::run(tier, replay),
+        "C08" => c08::run(tier, replay),
         "C19" => c19::run(tier, replay),
         "C20" => c20::run(tier, replay),
         _ => crate::engine::report::machinery_fail(&format!("unknown property {prop}")),
